@@ -456,8 +456,26 @@ func makePtrDecoder(typ reflect.Type) (decoder, error) {
 	return dec, nil
 }
 
-// makeOptionalPtrDecoder creates a decoder that decodes empty values
-// as nil. Non-empty values are decoded into a value of the element type,
+// nilPtrKind returns the kind of empty value that the encoder writes for a
+// nil pointer to etype: an empty list for structs, arrays and slices of anything
+// but bytes and for interfaces, an empty string otherwise.
+func nilPtrKind(etype reflect.Type) Kind {
+	switch k := etype.Kind(); {
+	case (k == reflect.Array || k == reflect.Slice) && isByte(etype.Elem()):
+		return String
+	case k == reflect.Struct || k == reflect.Array || k == reflect.Slice || k == reflect.Interface:
+		return List
+	case k == reflect.Ptr:
+		return nilPtrKind(etype.Elem())
+	default:
+		return String
+	}
+}
+
+// makeOptionalPtrDecoder creates a decoder that decodes the empty value a nil
+// pointer is encoded as (see nilPtrKind) as nil; the empty value of the other
+// kind is left to the decoder of the element type, so that nil has one encoding.
+// Non-empty values are decoded into a value of the element type,
 // just like makePtrDecoder does.
 //
 // This decoder is used for pointer-typed struct fields with struct tag "nil".
@@ -467,9 +485,10 @@ func makeOptionalPtrDecoder(typ reflect.Type) (decoder, error) {
 	if err != nil {
 		return nil, err
 	}
+	nilKind := nilPtrKind(etype)
 	dec := func(s *Stream, val reflect.Value) (err error) {
 		kind, size, err := s.Kind()
-		if err != nil || size == 0 && kind != Byte {
+		if err != nil || size == 0 && kind == nilKind {
 			// rearm s.Kind. This is important because the input
 			// position must advance to the next value even though
 			// we don't read anything.
